@@ -6,6 +6,7 @@ import (
 	"reflect"
 	"strconv"
 	"strings"
+	"sync"
 
 	"github.com/AsaiYusuke/jsonpath"
 	"pgregory.net/rapid"
@@ -65,8 +66,19 @@ func checkC11(c *Case, st *Stats) string {
 			doc = map[string]interface{}{"w": doc}
 		}
 		Journal(c.Check, c.Path, fmt.Sprintf("len=%d wrap=%d", n, wrapDepth), "")
+		snap := takeSnapshot(doc)
 		got, rerr := f(doc)
 		st.Eval(1)
+		// a second retrieval on the same document, then the same slice again: the selection is a
+		// function of (bounds, length) only, and the array itself is never written
+		_, _ = jsonpath.Retrieve("$..*", doc)
+		got2, rerr2 := f(doc)
+		if d := snap.diff(doc); d != "" {
+			return fmt.Sprintf("length %d: the array was modified: %s", n, d)
+		}
+		if !sameOutcome(got, rerr, got2, rerr2) {
+			return fmt.Sprintf("length %d: second evaluation on the same array gives (%s, %v), the first gave (%s, %v)", n, JSONString(got2), rerr2, JSONString(got), rerr)
+		}
 		res := spec.Eval(c.AST, doc, gen.PureFuncs{})
 		want := res.Values()
 		if len(want) == 0 {
@@ -129,7 +141,8 @@ func init() {
 	}
 	Register("TestC11_Exhaustive", checkC11)
 	Register("TestC11_Random", checkC11)
-	Register("TestC11_Chained", checkC01)
+	Register("TestC11_Chained", checkC11Chained)
+	Register("TestC11_SharedSlice", checkC11Shared)
 }
 
 func sliceCase(s, e, t *int, twoPart bool, lo, hi int) *Case {
@@ -259,6 +272,116 @@ func drawC11Chain(rt *rapid.T) *Case {
 	}
 	r := gen.Render(p, gen.RapidStyle{T: rt})
 	return &Case{Path: r.Text, AST: p, Texts: r.Steps, Doc: build(0, 1), UseNumber: rapid.Bool().Draw(rt, "usenumber")}
+}
+
+// checkC11Chained: C01's comparison with SPEC, then two more retrievals on ONE document (another
+// subscript path in between) which must agree with the first and leave the document unchanged.
+func checkC11Chained(c *Case, st *Stats) string {
+	if msg := checkC01(c, st); msg != "" {
+		return msg
+	}
+	f, err := jsonpath.Parse(c.Path)
+	if err != nil {
+		return ""
+	}
+	doc := c.Document()
+	snap := takeSnapshot(doc)
+	got1, err1 := f(doc)
+	_, _ = jsonpath.Retrieve("$[*][0:1]", doc)
+	_, _ = jsonpath.Retrieve("$[0][1]", doc)
+	got2, err2 := f(doc)
+	st.Eval(4)
+	if d := snap.diff(doc); d != "" {
+		return "the document was modified by subscript retrievals: " + d
+	}
+	if !sameOutcome(got1, err1, got2, err2) {
+		return fmt.Sprintf("the same path on the same document gives (%s, %v) and then (%s, %v)", JSONString(got1), err1, JSONString(got2), err2)
+	}
+	return ""
+}
+
+const ruleC11Shared = "under the race detector: ONE parsed index/slice/union path shared by 2..6 goroutines, each evaluating it 50..300 times on its own array of a different length (0..40); every result compared with SPEC's Python-slice model (computed beforehand, without the library). The selection must be a function of (bounds, length) whoever else is using the parsed path. Non-trivial: >=2 different lengths and >=1 non-empty selection."
+
+func drawC11Shared(rt *rapid.T) *Case {
+	c := drawC11(rt)
+	c.Ints = nil
+	n := 2 + gen.Uniform(rt, "goroutines", 5)
+	for i := 0; i < n; i++ {
+		c.Ints = append(c.Ints, rapid.IntRange(0, 40).Draw(rt, "len"))
+	}
+	c.Ints = append(c.Ints, 50+gen.Uniform(rt, "iters", 251))
+	c.AST.Steps[0].Rec = false
+	c.Path = gen.Render(c.AST, gen.Canon).Text
+	return c
+}
+
+func checkC11Shared(c *Case, st *Stats) string {
+	Pending(c)
+	f, err := jsonpath.Parse(c.Path)
+	if err != nil {
+		if DescribeErr(err).Type == "ErrorInvalidArgument" {
+			return ""
+		}
+		return fmt.Sprintf("Parse rejected %q: %v", c.Path, err)
+	}
+	lens, iters := c.Ints[:len(c.Ints)-1], c.Ints[len(c.Ints)-1]
+	docs := make([]interface{}, len(lens))
+	want := make([]string, len(lens))
+	nonEmpty := false
+	for i, n := range lens {
+		docs[i] = interface{}(arrayOfIndexes(n))
+		res := spec.Eval(c.AST, docs[i], gen.PureFuncs{})
+		want[i] = "ERR"
+		if len(res.Nodes) > 0 {
+			want[i] = JSONString(res.Values())
+			nonEmpty = true
+		}
+	}
+	mismatch := make([]string, len(lens))
+	var wg sync.WaitGroup
+	start := make(chan struct{})
+	for g := range lens {
+		g := g
+		wg.Add(1)
+		go func() {
+			defer wg.Done()
+			defer func() {
+				if r := recover(); r != nil && mismatch[g] == "" {
+					mismatch[g] = fmt.Sprintf("goroutine %d (length %d) panicked: %v", g, lens[g], r)
+				}
+			}()
+			<-start
+			for k := 0; k < iters; k++ {
+				got, err := f(docs[g])
+				s := "ERR"
+				if err == nil {
+					s = JSONString(got)
+				}
+				if s != want[g] && mismatch[g] == "" {
+					mismatch[g] = fmt.Sprintf("goroutine %d, array length %d, iteration %d: got %s, want %s", g, lens[g], k, s, want[g])
+				}
+			}
+		}()
+	}
+	close(start)
+	wg.Wait()
+	st.Eval(len(lens) * iters)
+	for _, m := range mismatch {
+		if m != "" {
+			return m
+		}
+	}
+	distinct := map[int]bool{}
+	for _, n := range lens {
+		distinct[n] = true
+	}
+	if len(distinct) >= 2 && nonEmpty {
+		st.Class("nontrivial")
+		st.NonTrivialCase(c.Path+fmt.Sprint(lens), func() interface{} {
+			return map[string]interface{}{"path": c.Path, "array_lengths": lens, "iterations": iters, "expected": want}
+		})
+	}
+	return ""
 }
 
 func drawC11(rt *rapid.T) *Case {
